@@ -57,7 +57,7 @@ CHECKS = {
         technique="plan-level translation validation: real analyzer + optimizer run on each SQL program; both plans encoded as bounded symbolic relations (QF_BV); z3 decides multiset equality on every database within the bound; models executed in the real engine",
         text="For every SQL program the analyzed plan and the plan produced by the REAL optimizer (full pipeline, each rule alone, pipeline minus one rule) are proved to return the same multiset of rows, with the same output schema, "
              "on EVERY database with at most N rows per table (all cell values and NULL flags symbolic). A sat model becomes concrete MemTables and both plans are executed by the real engine (without logical optimization) before it is reported.",
-        note="Bound: N = 2 (quick) / 3 (thorough) rows per table, Int32 columns, the SQL grammar of t/src/c03.rs. Trusted: the relational semantics of t/src/plan.rs (every model is replayed), z3. Outside: window/unnest/recursive/GROUPING SETS/subquery expressions, order-dependent LIMIT, larger tables.",
+        note="Bound: N = 2 rows per table in both tiers (the thorough tier uses five times the generated programs and tries single rules on every second program; 3 rows per table did not finish within 80 minutes), Int32 columns, the SQL grammar of t/src/c03.rs. Trusted: the relational semantics of t/src/plan.rs (every model is replayed), z3. Outside: window/unnest/recursive/GROUPING SETS/subquery expressions, order-dependent LIMIT, larger tables.",
         design="5/C03",
     ),
     "C38": dict(
@@ -65,7 +65,7 @@ CHECKS = {
         category="translation_validation",
         technique="plan-level translation validation of plan_to_sql: plan vs re-planned generated SQL, bounded symbolic relations, z3, replay in the real engine",
         text="For every program, the analyzed plan and the optimized plan are unparsed by the REAL plan_to_sql, the text is re-planned by the real planner, and plan and re-planned plan are proved to return the same rows on every database within the bound.",
-        note="Same bound and trusted base as C03. Eight classes of unparser defects on optimized plans are recorded in known_findings.json (keyed by the trigger in the unparsed plan).",
+        note="Same trusted base as C03; N = 2 (quick) / 3 (thorough) rows per table. Eight classes of unparser defects on optimized plans are recorded in known_findings.json (keyed by the trigger in the unparsed plan).",
         design="5/C38",
     ),
     "C41": dict(
@@ -73,7 +73,7 @@ CHECKS = {
         category="translation_validation",
         technique="plan-level translation validation of parameter binding: with_param_values / PREPARE+EXECUTE plan vs literal plan, bounded symbolic relations, z3, replay in the real engine",
         text="For each statement template and parameter vector the plan with the REAL parameter binding (LogicalPlan::with_param_values, and PREPARE/EXECUTE through SessionContext) is proved to return the same rows as the statement with the values written as literals, on every database within the bound.",
-        note="Same bound and trusted base as C03; 13 templates, BIGINT parameters from the boundary set incl. NULL.",
+        note="Same trusted base as C03, N = 2 (quick) / 3 (thorough) rows per table; 13 templates, BIGINT parameters from the boundary set incl. NULL.",
         design="5/C41",
     ),
     "C48": dict(
@@ -81,7 +81,7 @@ CHECKS = {
         category="translation_validation",
         technique="plan-level translation validation of the DataFrame builder: DataFrame plan vs SQL plan (and both optimized), bounded symbolic relations, z3, replay in the real engine",
         text="For each DataFrame operation chain the plan built by the REAL DataFrame methods is proved to return the same rows as the plan of the SQL statement with the same meaning, before and after optimization, on every database within the bound.",
-        note="Same bound and trusted base as C03; 32 hand-paired chains covering 19 builder methods.",
+        note="Same trusted base as C03, N = 2 (quick) / 3 (thorough) rows per table; 32 hand-paired chains covering 19 builder methods.",
         design="5/C48",
     ),
     "C37": dict(
@@ -89,7 +89,7 @@ CHECKS = {
         category="translation_validation",
         technique="plan-level translation validation of the Substrait round trip: optimized plan vs from_substrait_plan(to_substrait_plan(plan)), bounded symbolic relations, z3, replay in the real engine",
         text="For every program the optimized plan and its REAL Substrait round trip are proved to return the same rows with the same output types on every database within the bound.",
-        note="Same bound and trusted base as C03.",
+        note="Same trusted base as C03; N = 2 (quick) / 3 (thorough) rows per table.",
         design="5/C37",
     ),
     "C04": dict(
